@@ -7,6 +7,7 @@ every store, every third-party schedule and every behaviour of delegated phases 
 parameter; what a delegated phase reports is characterised in C15).
 -/
 import Pko.Lemmas.ObjectSet
+import Pko.Lemmas.Watch
 
 namespace Pko.Props.C03
 open Pko.Kube Pko.Model.Phase Pko.Model.ObjectSet Pko.Model.Status
@@ -311,6 +312,190 @@ theorem rollout_gated (cfg : Cfg) (ow : Owner) (prev : List Prev) (remote : Remo
   have : visitsPh cfg ow prev remote phases w = a ++ u :: (b ++ v :: l2) := by
     rw [hsplit, hab]; simp
   exact visited_prefix_clean cfg ow prev remote phases w a u (b ++ v :: l2) this (by simp)
+
+
+/-! ### What the probes see, what the condition says (seeds C03-5 / C03-6) -/
+
+/-- a write on key `k'` leaves every other key as it is. -/
+theorem commit_get_ne (s : Store) (k' : Key) (prev next : Obj) (k : Key) (h : k ≠ k') :
+    (commit s k' prev next).1.get k = s.get k := by
+  unfold commit
+  simp only
+  split
+  · simp [Store.get, Store.set, h]
+  · split
+    · rfl
+    · simp [Store.get, Store.set, h]
+
+/-- no third-party operation of the environment model brings an absent object into existence
+(`recreate` only replaces an existing object). -/
+theorem env_keeps_absent (s : Store) (e : EnvOp) (k : Key) (h : s.get k = none) : (s.env e).get k = none := by
+  have key : ∀ (k' : Key) (f : Obj → Obj),
+      (match s.get k' with | some c => (commit s k' c (f c)).1 | none => s).get k = none := by
+    intro k' f
+    by_cases hk : k = k'
+    · subst hk; simp [h]
+    · cases hg : s.get k' with
+      | none => simpa using h
+      | some c => simp only; rw [commit_get_ne _ _ _ _ _ hk]; exact h
+  cases e with
+  | reown k' os => exact key k' (fun c => { c with owners := os })
+  | setRev k' r => exact key k' (fun c => { c with rev := r })
+  | setPayload k' p => exact key k' (fun c => { c with payload := p })
+  | setReady k' r ob => exact key k' (fun c => { c with ready := r, obsGen := ob })
+  | removeFinalizer k' => exact key k' (fun c => { c with finalizer := false })
+  | relabel k' p => exact key k' (fun c => { c with pkgLabel := p })
+  | delete k' =>
+    simp only [Store.env]
+    by_cases hk : k = k'
+    · subst hk; simp [h]
+    · cases hg : s.get k' with
+      | none => simpa using h
+      | some c =>
+        simp only
+        split
+        · split
+          · exact h
+          · simp [Store.get, Store.set, hk]; exact h
+        · simp [Store.get, Store.set, hk]; exact h
+  | recreate k' =>
+    simp only [Store.env]
+    by_cases hk : k = k'
+    · subst hk; simp [h]
+    · cases hg : s.get k' with
+      | none => simpa using h
+      | some c => simp [Store.get, Store.set, hk]; exact h
+
+/-- … nor does any sequence of them. -/
+theorem envs_keep_absent (es : List (Nat × EnvOp)) (s : Store) (k : Key) (h : s.get k = none) :
+    (es.foldl (fun s e => s.env e.2) s).get k = none := by
+  induction es generalizing s with
+  | nil => exact h
+  | cons e rest ih => exact ih _ (env_keeps_absent s e.2 k h)
+
+/-- what a create through the API stores: never Ready, whatever the manifest says. -/
+theorem apply_absent_not_ready (s : Store) (k : Key) (a : Applied) (h : s.get k = none) :
+    (s.apply k a).2.1.ready = false ∧ (s.apply k a).2.2 = true := by
+  simp [Store.apply, h]
+
+/-- **created_object_fails_probe** (what the probes see is the STORED object, never the manifest):
+an object that does not exist when the pass reaches it is created, and the object handed to the
+probes is the API's answer to that create — it has no status, whatever `.status` stanza the manifest
+carries (the scenario's `status` field never reaches the model) — so it fails the probe in the
+creating pass, whatever third parties do right before the write. -/
+theorem created_object_fails_probe (cfg : Cfg) (ow : Owner) (prev : List Prev) (p : PObj) (w : World)
+    (hst : w.started p.kind = true)
+    (habs : w.store.get (keyOf cfg ow p) = none) :
+    ∃ o, (reconcileObject cfg ow prev p w).2 = .actual o ∧ probeOk o = false := by
+  have hseen : seen w (keyOf cfg ow p) = none := by simp [seen, cacheGet, habs]
+  rw [reconcileObject_started cfg ow prev p w hst]
+  simp only [hseen, reconcileObjectWith, World.apply]
+  have hb : w.beforeWrite.store.get (keyOf cfg ow p) = none := by
+    simp only [World.beforeWrite, World.tick]
+    exact envs_keep_absent _ _ _ habs
+  refine ⟨_, rfl, ?_⟩
+  simp [probeOk, (apply_absent_not_ready _ _ _ hb).1]
+
+/-- an object absent when the pass reaches it is never "returned by its reconcile step and passing the
+probe": created ⇒ fails (above); paused ⇒ recorded as missing; owner in another namespace ⇒ error. -/
+theorem absent_object_not_clean (cfg : Cfg) (ow : Owner) (prev : List Prev) (p : PObj) (w : World)
+    (habs : w.store.get (keyOf cfg ow p) = none) :
+    ¬ ∃ o, (reconcilePhaseObject cfg ow prev p w).2 = .actual o ∧ probeOk o = true := by
+  rintro ⟨o, ho, hp⟩
+  unfold reconcilePhaseObject at ho
+  split at ho
+  · simp at ho
+  · simp only at ho
+    split at ho
+    · have : cacheGet w.store (keyOf cfg ow p) = none := by simp [cacheGet, habs]
+      simp [pausedLookup, this] at ho
+    · obtain ⟨o', ho', hp'⟩ := created_object_fails_probe cfg ow prev p (w.watch ow p.kind)
+        (started_watch w ow p.kind) (by simpa using habs)
+      rw [ho'] at ho
+      injection ho with ho
+      subst ho
+      simp [hp] at hp'
+
+/-- **clean_phase_objects_were_present**: in a clean local phase every object existed in the store at
+the moment the pass reached it — none was created by this pass. Hence a later phase is only written
+when every object of every earlier phase was FOUND present (and passed the probes on its stored
+status). -/
+theorem clean_phase_objects_were_present (cfg : Cfg) (ow : Owner) (prev : List Prev)
+    (ps : List PObj) (w : World) (failed : List String)
+    (h : (reconcilePhase.go cfg ow prev ps w failed).2 = .ok []) :
+    ∀ pw ∈ Pko.Props.C01.visits cfg ow prev ps w, pw.2.store.get (keyOf cfg ow pw.1) ≠ none := by
+  intro pw hpw habs
+  obtain ⟨_, _, hall⟩ := clean_local_means cfg ow prev ps w failed h
+  exact absent_object_not_clean cfg ow prev pw.1 pw.2 habs (hall pw hpw)
+
+/-- `meta.SetStatusCondition` then `meta.FindStatusCondition`: the condition just set. -/
+theorem findCond_setCond (cs : List Cond) (c : Cond) : findCond (setCond cs c) c.type = some c := by
+  unfold findCond setCond
+  split
+  · rename_i h
+    induction cs with
+    | nil => simp at h
+    | cons x xs ih =>
+      simp only [List.map_cons, List.find?_cons]
+      by_cases hx : x.type = c.type
+      · simp [hx]
+      · have : xs.any (fun y => decide (y.type = c.type)) = true := by simpa [hx] using h
+        simp only [hx, ↓reduceIte, decide_false]
+        exact ih this
+  · rename_i h
+    rw [List.find?_append]
+    have : cs.find? (fun y => decide (y.type = c.type)) = none := by
+      simp only [List.find?_eq_none]
+      intro x hx
+      simp only [Bool.not_eq_true, List.any_eq_false] at h
+      simpa using h x hx
+    simp [this]
+
+/-- **probe_failure_names_this_pass**: a pass whose phases end with a failing phase `n` (re)writes the
+Available condition — False / ProbeFailure / current generation / naming `n` — whatever the condition
+said before the pass: the name in the stored condition is always the first failing phase of THE
+pass that wrote it (with `first_failing_phase_named`: the last visited phase, not clean, every
+earlier one clean). -/
+theorem probe_failure_names_this_pass (mem : OSet) (co : List CRef) (n : String) :
+    findCond (deriveStatus mem co (some n)).conds "Available"
+      = some ⟨"Available", "False", "ProbeFailure", mem.gen, n⟩ := by
+  simp only [deriveStatus, succConds, availConds, Option.isNone_some, Bool.false_and, Bool.false_eq_true, ↓reduceIte]
+  exact findCond_setCond _ (availableCond mem.gen false "ProbeFailure" n)
+
+/-- after `meta.SetStatusCondition` every condition of that type is the one just set. -/
+theorem setCond_same_type (cs : List Cond) (c : Cond) :
+    ∀ x ∈ setCond cs c, x.type = c.type → x = c := by
+  intro x hx ht
+  unfold setCond at hx
+  split at hx
+  · simp only [List.mem_map] at hx
+    obtain ⟨y, _, hy⟩ := hx
+    by_cases h : y.type = c.type
+    · simp [h] at hy; exact hy.symm
+    · simp [h] at hy; subst hy; exact absurd ht h
+  · rename_i h
+    simp only [List.mem_append, List.mem_singleton] at hx
+    rcases hx with hx | hx
+    · simp only [Bool.not_eq_true, List.any_eq_false] at h
+      have := h x hx
+      simp [ht] at this
+    · exact hx
+
+/-- Available=True is derived only from a pass in which no phase failed. -/
+theorem available_true_only_without_failing_phase (mem : OSet) (co : List CRef) (f : Option String) :
+    condTrue (deriveStatus mem co f).conds "Available" = true → f = none := by
+  intro h
+  cases f with
+  | none => rfl
+  | some n =>
+    exfalso
+    simp only [deriveStatus, succConds, availConds, Option.isNone_some, Bool.false_and, Bool.false_eq_true, ↓reduceIte] at h
+    simp only [condTrue, List.any_eq_true] at h
+    obtain ⟨x, hx, hxt⟩ := h
+    simp only [Bool.and_eq_true, decide_eq_true_eq] at hxt
+    have := setCond_same_type _ (availableCond mem.gen false "ProbeFailure" n) x hx (by simp [hxt.1, availableCond])
+    rw [this] at hxt
+    simp [availableCond] at hxt
 
 /-- Non-vacuity: two phases; the object of the first is not Ready, so only phase 1 is visited,
 the second phase's object is not created, and phase 1 is the one named. -/
